@@ -26,6 +26,7 @@ type gthread struct {
 	what   string
 	isMain bool
 	name   string
+	named  bool // created by vrt.Spawn: takes part in native schedule replay
 }
 
 type threadKill struct{}
@@ -223,6 +224,14 @@ func (m *Machine) yield() {
 // syncPoint is called at every synchronisation operation. In schedule mode it
 // offers a preemption (a fork in the exploration) while the budget lasts.
 func (m *Machine) syncPoint(what string) {
+	if m.hookOnly {
+		return
+	}
+	m.hookPoint(what)
+}
+
+// hookPoint offers a preemption here (schedule mode, budget permitting).
+func (m *Machine) hookPoint(what string) {
 	if !m.schedMode || m.preemptLeft <= 0 || m.inAtomicSection > 0 {
 		return
 	}
